@@ -1,19 +1,22 @@
+//@ variant: d0 DEFS=-DXV_DIR=0
+//@ variant: d1 DEFS=-DXV_DIR=1
 //@ tu: tools/xcmrelay/xrelay.c
+//@ defs: $DEFS
 //@ enforce: xfwd_receive
+//@ replace: xfwd_handle_term xfwd_handle_err
 //@ props: C20
-//@ expect: postcondition>=6 canary=7
+//@ expect: postcondition>=6 canary=6
 #include "_unit.h"
 void harness(void)
 {
     xv_ghost_havoc();
     xv_relay_havoc();
-    struct xfwd *relay;
+    XV_RELAY_SETUP;
     xfwd_receive(relay);
     if (xv_rcv_ret == 1) XV_CANARY("one byte");
     if (xv_rcv_ret == 65535) XV_CANARY("a maximum-size message");
-    if (xv_rcv_ret == -1 && xv_rcv_errno == EAGAIN) XV_CANARY("nothing to receive");
-    if (xv_rcv_ret == 0 && xv_terminated && !xv_cb_frees) XV_CANARY("peer closed, callback keeps the relay");
-    if (xv_rcv_ret == 0 && xv_terminated && xv_cb_frees) XV_CANARY("peer closed, callback destroys the relay");
-    if (xv_rcv_ret == -1 && xv_rcv_errno == ECONNRESET && xv_terminated) XV_CANARY("fatal error");
-    if (xv_src == 1 && xv_rcv_ret > 0) XV_CANARY("direction 1");
+    if (xv_rcv_ret == -1 && xv_rcv_errno == EAGAIN && !xv_terminated) XV_CANARY("nothing to receive");
+    if (xv_rcv_ret == 0 && xv_terminated && xv_fcb_reason == 0) XV_CANARY("peer closed");
+    if (xv_rcv_ret == -1 && xv_rcv_errno == ECONNRESET && xv_terminated && xv_fcb_reason == -1) XV_CANARY("fatal error");
+    if (xv_rcv_ret > 0 && xv_legs[XV_DIR].cond == XCM_SO_SENDABLE && xv_legs[1 - XV_DIR].cond == (XCM_SO_SENDABLE | XCM_SO_RECEIVABLE)) XV_CANARY("both legs carry interest of both directions");
 }
